@@ -109,4 +109,62 @@ example : ¬ ∃ σ : Nat → Nat, holds σ (.cmp .ult (.var 0 2) (.const 0 2)) 
   rintro ⟨σ, h⟩
   simp [holds, eval, cmpSem, b2n] at h
 
+/-! ### no statement is dropped -/
+
+open Pyvsc.RandSets in
+theorem mem_zip_range (tops : List Stmt) (d : Nat × Stmt) (h : d ∈ (List.range tops.length).zip tops) :
+    tops[d.1]? = some d.2 := by
+  obtain ⟨i, hi, he⟩ := List.getElem_of_mem h
+  simp only [List.getElem_zip, List.getElem_range] at he
+  subst he
+  simp only [List.length_zip, List.length_range, Nat.min_self] at hi
+  simp [hi]
+
+open Pyvsc.RandSets in
+theorem zip_range_mem (tops : List Stmt) (k : Nat) (hk : k < tops.length) :
+    (k, tops[k]) ∈ (List.range tops.length).zip tops := by
+  refine List.mem_iff_getElem.mpr ⟨k, by simpa using hk, ?_⟩
+  simp
+
+open Pyvsc.RandSets in
+/-- **No hard statement is dropped.**  Every top-level statement of the call that is not a soft
+    constraint is a hard constraint of one of the rand sets that are solved — the set of the fields it
+    mentions, or the field-less set when it mentions none — so an unsatisfiable statement cannot be
+    lost on the way to the solver. -/
+theorem no_statement_dropped (tops : List Stmt) (marks : List (Nat × Nat × Nat)) (extra : List (Nat × List Nat))
+    (k : Nat) (hk : k < tops.length) (hne : ∀ e, tops[k] ≠ .soft e) :
+    ∃ rs ∈ randSets (build tops marks extra), (k, tops[k]) ∈ rs.hard := by
+  have h0 : Inv ({} : St) := ⟨by intro i j a b _ ha; simp [live] at ha, by intro i a ha; simp [live] at ha,
+    by intro a ha; simp at ha, by intro c hc; simp at hc⟩
+  have f0 : From ((List.range tops.length).zip tops) ({} : St) :=
+    ⟨by intro i rs hl; simp [live] at hl, by intro d hd; simp at hd⟩
+  obtain ⟨keeps, recd⟩ := buildFrom_spec ((List.range tops.length).zip tops) ((tops.map countSoft).sum) marks extra
+    ((List.range tops.length).zip tops) {} (fun c hc => hc) h0
+  have hb : buildFrom ((tops.map countSoft).sum) marks extra ((List.range tops.length).zip tops) {} =
+      build tops marks extra := rfl
+  rw [hb] at keeps recd
+  have frm := keeps.frm f0
+  have hr := recd (k, tops[k]) (zip_range_mem tops k hk) hne
+  have fix : ∀ d : Nat × Stmt, d ∈ (List.range tops.length).zip tops → d.1 = k → d = (k, tops[k]) := by
+    intro d hd he
+    have := mem_zip_range tops d hd
+    rw [he, List.getElem?_eq_getElem hk] at this
+    have h2 : tops[k] = d.2 := by simpa using this
+    exact Prod.ext he h2.symm
+  rcases hr with ⟨i, rs, hl, d, hd, he⟩ | ⟨d, hd, he⟩
+  · refine ⟨rs, ?_, ?_⟩
+    · unfold randSets
+      apply List.mem_append_left
+      exact List.mem_filterMap.mpr ⟨some rs, List.mem_of_getElem? hl, rfl⟩
+    · rw [← fix d (frm.1 i rs hl d hd) he]; exact hd
+  · refine ⟨(build tops marks extra).noref, ?_, ?_⟩
+    · unfold randSets
+      apply List.mem_append_right
+      have : (build tops marks extra).noref.hard.isEmpty = false := by
+        cases hh : (build tops marks extra).noref.hard with
+        | nil => rw [hh] at hd; simp at hd
+        | cons x xs => rfl
+      simp [this]
+    · rw [← fix d (frm.2 d hd) he]; exact hd
+
 end Pyvsc.C02
